@@ -625,7 +625,9 @@ class FeatureIntervalCollection(AbstractFeatureIntervalCollection):
         for tx in self.feature_intervals:
             for i in tx.chromosome_location.blocks:
                 intervals.append(i)
-        merged = reduce(lambda x, y: x.union(y), intervals)
+        # children may be on different strands; the merged feature is on the strand of this collection
+        strand = self.chunk_relative_location.strand
+        merged = reduce(lambda x, y: x.union(y), (i.reset_strand(strand) for i in intervals))
         interval_starts = [x.start for x in merged.blocks]
         interval_ends = [x.end for x in merged.blocks]
 
